@@ -255,7 +255,7 @@ def make_ars_header(name):
 # whole files with sensible defaults
 # ----------------------------------------------------------------------------------------------
 
-def default_telemetry(i, n, phase=0, prt=400, ict=(800, 850, 860), space=(990, 991, 992)):
+def default_telemetry(i, n, phase=0, prt=400, ict=(700, 410, 420), space=(990, 990, 990)):
     """Realistic-looking telemetry for line number n: PRT cycle with reset every 5th line."""
     k = (n - phase) % 5
     p = [0, 0, 0] if k == 0 else [prt + 2 * k, prt + 2 * k, prt + 2 * k]
